@@ -194,6 +194,38 @@ fn main() {
                 }
             }
         }
+        "miri-cabi" => {
+            // complement of C17 (thorough tier): small cabi scripts executed under Miri with exact-size heap
+            // buffers. Usage: cargo +nightly miri run -- miri-cabi <count> <seed>
+            let count: u64 = args.get(2).and_then(|x| x.parse().ok()).unwrap_or(16);
+            let seed: u64 = args.get(3).and_then(|x| x.parse().ok()).unwrap_or(1);
+            let def = find(&defs, "C17");
+            runner::install_panic_hook();
+            let mut st = script::Stats::default();
+            let mut done = 0u64;
+            let mut i = 0u64;
+            while done < count && i < count * 400 {
+                let s = runner::gen_script(def, seed, i, Tier::Quick);
+                i += 1;
+                let small = s.blobs.iter().all(|(_, b)| b.len() <= 300) && s.ops.len() <= 10;
+                if !small {
+                    continue;
+                }
+                done += 1;
+                match runner::exec_guarded(def, &s, &mut st) {
+                    runner::ExecOut::Ok(_) => {}
+                    runner::ExecOut::Viol(v) => {
+                        println!("miri-cabi: run {} clause {} : {}", i - 1, v.clause, v.detail);
+                        std::process::exit(1);
+                    }
+                    runner::ExecOut::HarnessPanic(m) => {
+                        eprintln!("miri-cabi: HARNESS ERROR {}", m);
+                        std::process::exit(2);
+                    }
+                }
+            }
+            println!("miri-cabi: {} scripts executed ({} calls into the C shim), no violation", done, st.get("calls"));
+        }
         "selftest" => {
             let n: u64 = args.get(2).and_then(|x| x.parse().ok()).unwrap_or(100_000);
             std::process::exit(selftest::run(n));
